@@ -77,8 +77,8 @@ def harnesses(tier, seed):
     if tier == "thorough":
         hs += [
             h("c02_on_multi_del_step", "one bulk delete carrying two documents with distinct ids; the store may fail after any prefix and "
-              "reports the ids it wrote in any order", t=5400, mem=50, covers=2),
+              "reports the ids it wrote in any order", t=3600, mem=28, covers=2),
             h("c02_on_multi_set_step", "one bulk put carrying two documents with distinct ids; the store may fail after any prefix and "
-              "reports the ids it wrote in any order", t=5400, mem=50, covers=2),
+              "reports the ids it wrote in any order", t=3600, mem=28, covers=2),
         ]
     return hs
